@@ -201,6 +201,13 @@ class C10(Property):
             ctx.require(np.array_equal(M, M.T), "pairwise:asymmetric", "distance matrix not symmetric")
             ctx.require(bool(np.all(np.diag(M) == 0)), "pairwise:diagonal", "diagonal not zero")
             ctx.require(bool(np.all(np.abs(M - exp) <= 1e-12 * scale)), f"pairwise:value:sub={sub}", f"matrix differs from the oracle by {np.abs(M - exp).max() if n else 0}")
+            if n:  # the caller owns the result: writing into it must not change what the next call returns
+                keep = M.copy()
+                try:
+                    M[...] = -5.0
+                except ValueError:
+                    pass
+                ctx.require(np.array_equal(em.get_pairwise_distances(subtract_radius=sub, grid=grid), keep), "pairwise:result-aliases-internal-state", "after writing into the returned matrix the same query returns something else")
         for i in range(n):
             for j in range(n):
                 if i != j and (spec.get("exact") or abs(Ssurf[i, j]) > 1e-9 * scale):
